@@ -56,6 +56,7 @@ type VHolder struct {
 }
 
 type VEmb3 struct {
+	Name  string `json:"name3"` // the same Go field name as VAll.Name and VEmb2.Name: only the json tags tell them apart
 	Alpha int64  `json:"alpha"`
 	Beta  int64  `json:"beta"`
 	Gamma string `json:"gamma"`
@@ -64,7 +65,8 @@ type VEmb3 struct {
 
 type VEmb2 struct {
 	VEmb3
-	E2 int `json:"e2"`
+	Name string `json:"name2"`
+	E2   int    `json:"e2"`
 }
 
 type VEmb struct {
@@ -95,6 +97,7 @@ type VAll struct {
 	Vs    []VInner               `json:"vs"`
 	Ps    []*VInner              `json:"ps"`
 	NoTag string
+	Name  string `json:"name"`
 }
 
 func (a *VAll) EchoSelf() *VAll              { return a }
@@ -185,6 +188,9 @@ func c10atoms() []c10atom {
 	add("embedded3", "gamma", `gamma:"g"`, func(v *VAll) { v.Gamma = "g" })
 	add("embedded3", "delta", `delta:"d"`, func(v *VAll) { v.Delta = "d" })
 	add("embedded2", "e2", `e2:5`, func(v *VAll) { v.E2 = 5 })
+	add("shadowed-name", "name", `name:"top"`, func(v *VAll) { v.Name = "top" })
+	add("shadowed-name", "name2", `name2:"mid"`, func(v *VAll) { v.VEmb.VEmb2.Name = "mid" })
+	add("shadowed-name", "name3", `name3:"deep"`, func(v *VAll) { v.VEmb.VEmb2.VEmb3.Name = "deep" })
 	add("[]struct", "vs", `vs:[(vinner s:"a" n:1) (vinner s:"b")]`, func(v *VAll) { v.Vs = []VInner{{S: "a", N: 1}, {S: "b"}} })
 	add("[]struct", "vs", `vs:[(vinner s:"a" n:1) (vinner n:2) (vinner s:"c")]`, func(v *VAll) { v.Vs = []VInner{{S: "a", N: 1}, {N: 2}, {S: "c"}} })
 	add("[]*struct", "ps", `ps:[(vinner s:"a" n:1) (vinner s:"b")]`, func(v *VAll) { v.Ps = []*VInner{{S: "a", N: 1}, {S: "b"}} })
@@ -253,7 +259,7 @@ func c10cases(thorough bool) []c10case {
 	{
 		var emb []c10atom
 		for _, a := range atoms {
-			if (a.class == "embedded3" || a.class == "embedded2") || a.frag == "e:1" {
+			if (a.class == "embedded3" || a.class == "embedded2" || a.class == "shadowed-name") || a.frag == "e:1" {
 				emb = append(emb, a)
 			}
 		}
